@@ -616,14 +616,15 @@ pub fn is_os() -> bool {
     !cfg!(feature = "inproc")
 }
 
-pub fn pin_to_cpus(n: usize) {
+pub fn pin_to_cpus(start: usize, n: usize) {
     if n == 0 {
         return;
     }
+    let ncpu = unsafe { libc::sysconf(libc::_SC_NPROCESSORS_ONLN) }.max(1) as usize;
     unsafe {
         let mut set: libc::cpu_set_t = std::mem::zeroed();
         for i in 0..n {
-            libc::CPU_SET(i, &mut set);
+            libc::CPU_SET((start + i) % ncpu, &mut set);
         }
         libc::sched_setaffinity(0, std::mem::size_of::<libc::cpu_set_t>(), &set);
     }
